@@ -404,7 +404,7 @@ theorem to16_sixteen (x : Bytes) (h : x.length = 16) : to16 x = some x := by sim
 theorem parse_cidr_v4 (s : Bytes) (i : Nat) (addr a4 : Bytes) (p : Nat)
     (hsep : (i == s.length - 1) = false)
     (haddr : parseIP (s.take i) = some addr) (h4 : to4 addr = some a4) (ha4 : a4.length = 4)
-    (hnoip : parseIP (s.drop (i + 1)) = none) (hp : atoi (s.drop (i + 1)) = some (p : Int)) (hp32 : p ≤ 32) :
+    (hnoip : parseIP (s.drop (i + 1)) = none) (hp : prefixLenOf (s.drop (i + 1)) = some (p : Int)) (hp32 : p ≤ 32) :
     parseCIDRorMask s i = some ⟨v4InV6Prefix ++ (blockRange a4 (cidrMask 4 p) p).left,
                                 v4InV6Prefix ++ (blockRange a4 (cidrMask 4 p) p).right⟩ := by
   have hl := blockRange_lengths a4 p (by omega) (Or.inl ha4)
@@ -435,7 +435,7 @@ theorem parse_mask_v4 (s : Bytes) (i : Nat) (addr a4 m m4 : Bytes) (ones : Nat)
 theorem parse_cidr_v6 (s : Bytes) (i : Nat) (addr : Bytes) (p : Nat)
     (hsep : (i == s.length - 1) = false)
     (haddr : parseIP (s.take i) = some addr) (h4 : to4 addr = none) (h16 : addr.length = 16)
-    (hnoip : parseIP (s.drop (i + 1)) = none) (hp : atoi (s.drop (i + 1)) = some (p : Int)) (hp128 : p ≤ 128) :
+    (hnoip : parseIP (s.drop (i + 1)) = none) (hp : prefixLenOf (s.drop (i + 1)) = some (p : Int)) (hp128 : p ≤ 128) :
     parseCIDRorMask s i = some (blockRange addr (cidrMask 16 p) p) := by
   have hl := blockRange_lengths addr p (by omega) (Or.inr h16)
   rw [h16] at hl
@@ -447,7 +447,7 @@ theorem parse_cidr_v6 (s : Bytes) (i : Nat) (addr : Bytes) (p : Nat)
 /-- a prefix length outside 0..8·len is rejected -/
 theorem bad_prefix_rejected (s : Bytes) (i : Nat) (addr : Bytes) (p : Int)
     (haddr : parseIP (s.take i) = some addr)
-    (hnoip : parseIP (s.drop (i + 1)) = none) (hp : atoi (s.drop (i + 1)) = some p)
+    (hnoip : parseIP (s.drop (i + 1)) = none) (hp : prefixLenOf (s.drop (i + 1)) = some p)
     (hbad : p < 0 ∨ p > 8 * (((match to4 addr with | some a => a | none => addr).length : Nat) : Int)) :
     parseCIDRorMask s i = none := by
   unfold parseCIDRorMask
@@ -480,7 +480,7 @@ theorem bad_mask_rejected (s : Bytes) (i : Nat) (addr m m4 : Bytes)
 
 /-- neither a prefix length nor a mask after the slash: rejected -/
 theorem bad_tail_rejected (s : Bytes) (i : Nat)
-    (hnoip : parseIP (s.drop (i + 1)) = none) (hp : atoi (s.drop (i + 1)) = none) :
+    (hnoip : parseIP (s.drop (i + 1)) = none) (hp : prefixLenOf (s.drop (i + 1)) = none) :
     parseCIDRorMask s i = none := by
   unfold parseCIDRorMask
   split
